@@ -364,8 +364,54 @@ func vExploreUnsupported(t *testing.T, out *vEmitter) {
 	vExplore(t, out, e, 2, vPick(3, 99), vPick(300, 5000), "unsupported-invalid", -1)
 }
 
+// vC12ResizingRefresh: a refresh that changes the SIZE of the session (one cookie -> several parts, and back).  The
+// request after it carries the refreshed tokens and causes no further refresh.
+func vC12ResizingRefresh(t *testing.T, out *vEmitter) {
+	for _, redis := range []bool{false, true} {
+		for _, grow := range []bool{true, false} {
+			e := vNewEnv(t, vEnvCfg{oidc: true, redis: redis, mod: func(o *options.Options) {
+				o.Cookie.Refresh = time.Hour
+				o.Providers[0].OIDCConfig.InsecureSkipNonce = true
+				o.InjectRequestHeaders = append(o.InjectRequestHeaders, options.Header{Name: "X-Forwarded-Access-Token",
+					Values: []options.HeaderValue{{ClaimSource: &options.ClaimSource{Claim: "access_token"}}}})
+			}})
+			oldLen, newLen := 20, 6000
+			if !grow {
+				oldLen, newLen = 6000, 20
+			}
+			b := e.newBrowser("https://app.example.com")
+			b.seedSession("user@example.com", 2*time.Hour, oldLen)
+			newTok := "at-new-" + vIncompressible(newLen)
+			calls := 0
+			e.idp.onToken = func(url.Values) (int, string, string, error) {
+				calls++
+				return 200, "application/json", vTokenJSON(vJWT(vKeyRSA, "RS256", vClaims("user@example.com", nil)), newTok, "rt-new", 3600), nil
+			}
+			r1 := b.get("/page1")
+			first := calls
+			r2 := b.get("/page2")
+			tok := func(r *vResult) string {
+				if r.Hit() {
+					return r.Upstream[0].Header.Get("X-Forwarded-Access-Token")
+				}
+				return ""
+			}
+			out.Obs("resizing-refresh", true, vL(vBool(redis), vBool(grow), vBool(tok(r1) == newTok), vBool(tok(r2) == newTok), vI(int64(calls))))
+			out.Stat("resizing_refresh_cases", 1)
+			if first != 1 || tok(r1) != newTok {
+				out.Violation("refresh/request-not-served", "a request sharing the refreshed session was not served",
+					map[string]interface{}{"redis": redis, "session_grows": grow, "refresh_calls": first, "status": r1.Status})
+			} else if !r2.Hit() || tok(r2) != newTok || calls != 1 {
+				out.Violation("refresh/new-tokens-not-persisted", "after a refresh the next request does not carry the new tokens (or refreshed again)",
+					map[string]interface{}{"redis": redis, "session_grows": grow, "hit": r2.Hit(), "status": r2.Status, "refresh_calls": calls, "carries_new_token": tok(r2) == newTok})
+			}
+		}
+	}
+}
+
 func driveC12(t *testing.T, out *vEmitter) {
 	defer vExploreUnsupported(t, out)
+	defer vC12ResizingRefresh(t, out)
 	e := vSchedEnv(t)
 	vExplore(t, out, e, 2, vPick(3, 99), vPick(400, 20000), "2req", -1)
 	vExplore(t, out, e, 3, vPick(2, 3), vPick(300, 6000), "3req", -1)
